@@ -107,6 +107,10 @@ inductive Ev where
   /-- the source file is replaced by a new version; `tick = false`: within the same
       timestamp granule as the previous event -/
   | modify (tick : Bool)
+  /-- the source file is replaced by a new version that CARRIES the mtime `m` (it is not stamped
+      with the current time): a file installed with its build time preserved (`cp -p`, `install -p`,
+      `meson install`, `tar x`, a distribution package).  Typically `m` is older than the clock. -/
+  | replace (m : Nat)
   /-- time passes -/
   | tick
   deriving Repr, DecidableEq
@@ -259,6 +263,7 @@ def step (s : State) : Ev → State
   | .modify t =>
     let c := if t then s.clock + 1 else s.clock
     { s with clock := c, ver := s.ver + 1, srcM := upd s.srcM (s.ver + 1) c }
+  | .replace m => { s with ver := s.ver + 1, srcM := upd s.srcM (s.ver + 1) m }
   | .tick => { s with clock := s.clock + 1 }
 
 def run (s : State) (evs : List Ev) : State := evs.foldl step s
@@ -294,6 +299,7 @@ def evOK (s : State) : Ev → Bool
     | .sWrite _ _ => (s.procs p).data == s.ver
     | _ => true
   | .modify t => t
+  | .replace _ => false
   | _ => true
 
 def histOK (s : State) : List Ev → Bool
@@ -312,11 +318,20 @@ def histNoModDuringStore (s : State) : List Ev → Bool
   | [] => true
   | e :: es => evNoModDuringStore s e && histNoModDuringStore (step s e) es
 
-/-- only the second half: every modification ticks the clock -/
+/-- only the second half: every modification is stamped with the time at which it happens and
+    ticks the clock -/
 def histFineClock : List Ev → Bool
   | [] => true
   | .modify t :: es => t && histFineClock es
+  | .replace _ :: _ => false
   | _ :: es => histFineClock es
+
+/-- weaker: every modification that is stamped with the current time ticks the clock; files
+    installed with a preserved (older) mtime are allowed -/
+def histTicks : List Ev → Bool
+  | [] => true
+  | .modify t :: es => t && histTicks es
+  | _ :: es => histTicks es
 
 /-! ### the hypothesis of `C18_version_purge` -/
 
